@@ -59,7 +59,32 @@ PROPS.update({
     "C11": _bounded("C11", "c11", "7 replace-family operations x ranges x payload-valid slices: totality (2 s alarm), oracle validity, prefix/suffix preservation, no invented content."),
     "C12": _bounded("C12", "c12", "helper approvals (split, join, join_point, lift, wrap, insert_point, drop_point) followed by the edit: must succeed, stay valid, keep the leaf sequence."),
     "C13": _bounded("C13", "c13", "add/remove mark over ranges and node-level edits against a per-token mark oracle incl. an exclusion-variant schema."),
-    "C14": _bounded("C14", "c14", "mark-set algebra on every configuration with <= 4 mark types, all reachable sets, against the set-theoretic oracle; compilation of excludes/marks declarations."),
+    "C14": dict(
+        sidecars=["contracts.model_mark"],
+        driver="c14",
+        level="other",
+        shards={"Mark.add_to_set": 4, "NodeType.allowed_marks": 2},
+        min_obligations=80,
+        assumptions=["A1", "A4", "A5", "A6", "A10", "Z3", "PYVC"],
+        extra_assumptions=["Mark.set_from (Union-typed parameter, sorted()) and the compilation of excludes / marks declarations in Schema.__init__ are outside the subset: bounded only",
+                           "canonical form of the result (rank order, no duplicates) is not a discharged obligation: it is checked by the bounded driver on every reachable set"],
+        level_text=(
+            "Hybrid. Deductive (unbounded): Mark.add_to_set, remove_from_set, is_in_set, eq, same_set, MarkType.excludes / is_in_set / "
+            "remove_from_set, NodeType.allows_mark_type / allows_marks / allowed_marks are proved equal to recursive specification "
+            "functions (the documented add rule as a scan; filters; membership) for all mark lists and exclusion relations, with the "
+            "needed induction lemmas proved separately. Bounded: the same contract text is evaluated natively and compared with an "
+            "independent set-theoretic oracle on every mark configuration with <= 4 types and every reachable set; canonical form of "
+            "results and schema compilation are bounded only."
+        ),
+        level_note="Trusted: z3 unsat, pyvc encoding (A1,A4-A6,A10), adequacy of the spec functions (cross-checked natively against the oracle).",
+        technique="contract-based deductive verification (pyvc -> z3) of the mark algebra + bounded oracle cross-check of the same contracts",
+        explanation=(
+            "Obligations: post-conditions per return path, loop invariants (entry / preserved) of the real loops and of the "
+            "comprehension / any / all / next desugarings, frame (mutation only of freshly allocated lists), callee preconditions; "
+            "lemmas by induction over the list index. The bounded driver evaluates the same contracts natively and an independent oracle."
+        ),
+        bounded_only=["canonical form of results", "Mark.set_from", "schema compilation of excludes/marks"],
+    ),
     "C16": _bounded("C16", "c16", "ordered step pairs biased to adjacency: merged step vs the two steps."),
     "C17": _bounded("C17", "c17", "pairs of steps with separated touched ranges: rebase both ways, both orders equal."),
     "C18": _bounded("C18", "c18", "every range inside every isolating node x replace-family operations: tokens outside the node unchanged; lift_target / can_split do not cross."),
